@@ -8,6 +8,15 @@ J_f(m^2/T^2)) with the sum over the species axis and each temperature paired wit
 reduces to the Stefan-Boltzmann value for massless particles, and the ABS_ARGUMENT option only
 replaces m^2 by |m^2|.
 
+Integrand layer: `JbIntegral/JfIntegral._functionImplementation` run with the quadrature replaced
+by a recording stub (returns an arbitrary number): for symbolic x on either side of zero the solver
+decides which pieces are integrated over which limits, how they are assembled into (Re, Im), and
+that every integrand handed to the quadrature equals, at an arbitrary point y of its piece, the
+defining integrand -/+ y^2 log(1 -/+ exp(-sqrt(y^2+x))) -- for y^2+x<0 its principal real part
+log|1 -/+ e^{-iw}| and imaginary part arg(1 -/+ e^{-iw}) written with sin w, cos w (the code uses
+half-angle forms; the double-angle identities are the stated axioms, exp/log/sin/cos/tan/arctan are
+uninterpreted with |arctan| < pi/2).
+
 Bounded ground scan, encoded in SMT but without symbolic inputs (stated as such): every row of
 the two shipped 10000-row tables, as loaded by the real `readInterpolationTable`, must agree
 with the cubic interpolation of its four neighbours within a region-dependent tolerance, have
@@ -26,6 +35,7 @@ import numpy as np
 import z3
 
 import WallGo.PotentialTools.effectivePotentialNoResum as NR
+import WallGo.PotentialTools.integrals as IG
 from WallGo.PotentialTools import defaultIntegrals
 from WallGo.PotentialTools.effectivePotentialNoResum import EffectivePotentialNoResum, EImaginaryOption
 
@@ -34,13 +44,17 @@ from symx.core import AND, Cond, Sym, close, eq
 from symx.harness import HarnessDef
 
 EXPLANATION = __doc__
-BOUNDS = {"thermal sum": "1-2 boson and 1-2 fermion species, scalar T and T of shape (2,), all symbolic",
+BOUNDS = {"integrands": "x in [0, 2000] and (-2000, 0), y in (0, 60)/(0, 80)/(0, 45), scalar argument; isolated "
+                        "points with w/2 a multiple of pi/2 excluded",
+          "thermal sum": "1-2 boson and 1-2 fermion species, scalar T and T of shape (2,), all symbolic",
           "tables": "all 10000 rows of both shipped tables, both columns (ground scan in 500-row chunks)"}
-OUTSIDE = ["equality of quad() of the piecewise integrands with the defining integrals (adaptive quadrature of "
-           "transcendental integrands is not encodable)", "accuracy of the tables with respect to the integrals",
+OUTSIDE = ["convergence/accuracy of scipy.integrate.quad on the integrands (the quadrature is a stub returning an "
+           "arbitrary number; only WHAT is integrated over WHICH limits is decided)", "accuracy of the tables with respect to the integrals",
            "Coleman-Weinberg term with complex logarithm (complex arithmetic is not modelled)",
            "Boltzmann suppression for heavy particles and continuity in the masses: properties of Jb/Jf themselves"]
-ASSUMPTIONS = ["Jb, Jf uninterpreted with Jb(0) = -pi^4/45, Jf(0) = -7 pi^4/360"]
+ASSUMPTIONS = ["exp, log, sin, cos, tan, arctan uninterpreted; double-angle identities at w/2; |arctan| < pi/2; "
+               "SMALL_NUMBER = 1e-100 read as 0 (ideal-constant lifting)",
+               "Jb, Jf uninterpreted with Jb(0) = -pi^4/45, Jf(0) = -7 pi^4/360"]
 
 JB0 = -math.pi ** 4 / 45
 JF0 = -7 * math.pi ** 4 / 360
@@ -126,6 +140,89 @@ def h_massless(h):
                   atol=0.0, scale=(nb_ + nf_ + 1e-30) * T ** 4 if h.symbolic else float((nb_ + nf_) * T ** 4 + 1e-30))
 
 
+# ---- integrands and the piecewise assembly of Jb / Jf ------------------------------------
+
+def trig_axioms(e):
+    """range of the principal arctan (the only fact about arctan the claims need)"""
+    out = []
+    half = z3.RealVal(core.lift_float(math.pi / 2))
+    for (_a,), app in e.apps.get("arctan", []):
+        out += [app < half, app > -half]
+    return out
+
+
+def h_integrand(h, kind, region):
+    """JbIntegral / JfIntegral._functionImplementation with the quadrature replaced by a stub that
+    records (integrand, a, b) and returns an arbitrary number: the pieces integrated, their limits,
+    the assembly into (Re, Im), and every integrand at an arbitrary point of its piece against the
+    defining integrand  -/+ y^2 log(1 -/+ exp(-sqrt(y^2 + x)))  with sqrt(y^2+x) = i w for y^2+x < 0:
+    log(1 -/+ e^{-iw}) = log|1 -/+ e^{-iw}| + i arg(1 -/+ e^{-iw})  (principal values)."""
+    h.patch(IG, float=npx.symfloat, np=npx.NP(), complex=core.symcomplex)
+    cls = IG.JbIntegral if kind == "b" else IG.JfIntegral
+    sg = -1.0 if kind == "b" else 1.0          # 1 + sg e^{-z}
+    calls = []
+
+    def integ(func, a, b):
+        v = h.fresh("quad", -100, 100, default=0.37 + 0.11 * len(calls))
+        calls.append((func, a, b, v))
+        return v
+    h.patch_always(IG, _integrator=integ)
+    obj = cls.__new__(cls)
+    if region == "pos":
+        x = h.real("x", 0, 2000, strict=False, default=3.0)
+    else:
+        x = h.real("x", -2000, 0, default=-60.0)
+    out = np.asarray(obj._functionImplementation(x)).reshape(-1)
+    h.prove("result has a real and an imaginary component", Cond(b=out.shape == (2,)))
+    sqrt = core.sym_sqrt if h.symbolic else math.sqrt
+    fn = (lambda n, a: core.sym_uf(n, a)) if h.symbolic else (lambda n, a: getattr(math, {"arctan": "atan"}.get(n, n))(a))
+
+    def defining_pos(y):
+        return -sg * y * y * fn("log", 1.0 + sg * fn("exp", -sqrt(y * y + x)))
+    if region == "pos":
+        h.prove("x >= 0: one piece", Cond(b=len(calls) == 1))
+        f0, a0, b0, v0 = calls[0]
+        h.prove("x >= 0: integrated over [0, inf)", Cond(b=(not isinstance(a0, Sym)) and a0 == 0.0 and b0 == np.inf))
+        h.prove_eq("x >= 0: Re J = the integral", out[0], v0)
+        h.prove_eq("x >= 0: Im J = 0", out[1], 0.0)
+        y = h.real("y", 0, 60, default=1.2)
+        h.prove_eq("x >= 0: integrand is the defining one", f0(y), defining_pos(y), conc_rtol=1e-12)
+        return
+    h.prove("x < 0: three pieces", Cond(b=len(calls) == 3))
+    (f0, a0, b0, v0), (f1, a1, b1, v1), (f2, a2, b2, v2) = calls
+    edge = sqrt(-x)
+    h.prove("x < 0: limits 0..sqrt|x| (oscillating part), sqrt|x|..inf (decaying part), 0..sqrt|x| (imaginary part)",
+            AND(eq(a0, 0.0), eq(b0, edge), eq(a1, edge), Cond(b=b1 == np.inf), eq(a2, 0.0), eq(b2, edge)))
+    h.prove_eq("x < 0: Re J = sum of the two real pieces", out[0], v0 + v1)
+    h.prove_eq("x < 0: Im J = the imaginary piece", out[1], v2)
+    # decaying part
+    yo = h.real("y_out", 0, 80, default=9.0)
+    h.assume(core.gt(yo * yo, -x))
+    h.prove_eq("x < 0, y^2 > |x|: integrand is the defining one", f1(yo), defining_pos(yo), conc_rtol=1e-12)
+    # oscillating part: sqrt(y^2 + x) = i w
+    yi = h.real("y_in", 0, 45, default=1.0)
+    h.assume(core.lt(yi * yi, -x))
+    w = sqrt(-yi * yi - x)
+    c, s_ = fn("cos", w), fn("sin", w)
+    if h.symbolic:
+        hw = 0.5 * w
+        sh, ch, th = fn("sin", hw), fn("cos", hw), fn("tan", hw)
+        h.assume(AND(eq(s_, 2 * sh * ch), eq(c, 1 - 2 * sh * sh), eq(sh * sh + ch * ch, 1.0), eq(th * ch, sh)),
+                 "double-angle identities sin w = 2 sin(w/2) cos(w/2), cos w = 1 - 2 sin^2(w/2), "
+                 "sin^2 + cos^2 = 1, tan = sin / cos (facts about the real functions, instantiated at w/2)")
+        h.assume(AND(core.ne(sh, 0.0), core.ne(ch, 0.0)),
+                 "w/2 not a multiple of pi/2 (isolated points where the integrand has its integrable "
+                 "logarithmic singularity / the phase jumps; the code regularises them with 1e-100)")
+    re_mod = sqrt((1 + sg * c) * (1 + sg * c) + s_ * s_)          # |1 + sg e^{-iw}|
+    # arg(1 + sg e^{-iw}) = arctan(-sg sin w / (1 + sg cos w))  (real part >= 0: principal branch);
+    # arctan is odd and sg^2 = 1:  -sg arg = arctan(sin w / (1 + sg cos w))
+    marg = fn("arctan", s_ / (1 + sg * c))
+    h.prove_eq("x < 0, y^2 < |x|: real integrand = -/+ y^2 log|1 -/+ e^{-iw}|", f0(yi),
+               -sg * yi * yi * fn("log", re_mod), conc_rtol=1e-9)
+    h.prove_eq("x < 0, y^2 < |x|: imaginary integrand = -/+ y^2 arg(1 -/+ e^{-iw})", f2(yi),
+               yi * yi * marg, conc_rtol=1e-9)
+
+
 # ---- shipped tables -------------------------------------------------------------------
 
 def _tol(name, x, comp):
@@ -180,17 +277,27 @@ HARNESSES = [
                encodes=[EffectivePotentialNoResum.potentialOneLoopThermal], random_validation=2),
     HarnessDef("massless-limit", h_massless, [dict()], max_paths=10, timeout_s=60,
                encodes=[EffectivePotentialNoResum.potentialOneLoopThermal], random_validation=2),
+    HarnessDef("integrands", h_integrand, [dict(kind=k, region=r) for k in ("b", "f") for r in ("pos", "neg")],
+               max_paths=20, timeout_s=60, axioms=[trig_axioms],
+               encodes=[IG.JbIntegral._functionImplementation, IG.JbIntegral._integrandPositiveReal,
+                        IG.JbIntegral._integrandNegativeReal, IG.JbIntegral._integrandNegativeImaginary,
+                        IG.JfIntegral._functionImplementation, IG.JfIntegral._integrandPositiveReal,
+                        IG.JfIntegral._integrandNegativeReal, IG.JfIntegral._integrandNegativeImaginary],
+               random_validation=6),
     HarnessDef("shipped-tables", h_tables, _TAB, _TAB, max_paths=2, timeout_s=60,
                encodes=[], random_validation=1),
 ]
 
 MANIFEST = {
-    "text": "Formula layer: for symbolic masses, degrees of freedom and temperatures (scalar and array) with "
+    "text": "Integrand layer: with the quadrature stubbed, for symbolic x on both sides of zero z3 proves which "
+            "pieces Jb/Jf integrate over which limits, their assembly into (Re, Im), and that each integrand "
+            "equals the defining -/+ y^2 log(1 -/+ exp(-sqrt(y^2+x))) (principal real and imaginary parts for "
+            "y^2+x<0) at an arbitrary point of its piece. Formula layer: for symbolic masses, degrees of freedom and temperatures (scalar and array) with "
             "Jb/Jf uninterpreted, potentialOneLoopThermal equals T^4/(2 pi^2)(sum n_B Jb(m^2/T^2) + sum n_F "
             "Jf(m^2/T^2)) summed over the species axis with each temperature paired with its own masses; massless "
             "particles give the Stefan-Boltzmann value; ABS_ARGUMENT only replaces m^2 by |m^2|. Tables: every row "
             "of both shipped tables passes a local-smoothness / reality / monotonicity / decay scan (ground SMT "
             "formulas over the real loaded data).",
-    "note": "That quad() of the integrands equals the defining integrals and that the tables reproduce them is "
+    "note": "Accuracy of quad() and that the tables reproduce the integrals is "
             "NOT decidable by this technique and is not claimed; the table scan only detects localised corruption.",
 }
